@@ -146,6 +146,63 @@ theorem okA_attBlock {L o k lno b} (h : okA L o k (.attBlock lno b)) {k' : Nat} 
   simp only [okA, att_wfG, movesFitA, maxSubdirA, flagsKeepSeenA] at h ⊢
   exact ⟨h.1, h.2.1, h.2.2.1, fun z => absurd z hk, h.2.2.2.2⟩
 
+/-! ## where `pass` / `break` stand in an action list
+
+The grammar accepts `pass` / `break` anywhere in an action list; `Spec.parseRuleAW` gives every
+such list its documented reading (all listed actions, control of the rule).  The evaluator walks the
+AND chain of the actions from left to right (`expr_eval_and`); `expr_eval_pass` appends its marker
+and returns NO MATCH, which ends the walk; `expr_eval_break` appends its marker and returns MATCH,
+the walk goes on.  Three classes of placements are kept outside the domain of the refinement
+theorem, each by its own predicate on the action list `xs` of a rule:
+
+* `actionAfterPass` - something other than `pass` stands after a `pass`: the evaluator never looks at
+  it (`label "x" pass move "y"` labels and does not move; `mdsort -n` accepts the file).  The manual
+  says nothing of the kind: a deviation of the code from the documented reading (witness
+  `C03_actions_after_pass_ignored`).
+* `attAfterBreak` - an attachment block stands after a `break`: `expr_eval_block`, evaluating the
+  block of the attachment block on the first part, finds the BREAK entry of the enclosing rule in the
+  match list, removes it and reports no match for that part (the finding F11 - PASS/BREAK are looked
+  up in the whole list - in one more shape; witness `C03_att_after_break_consumes_break`).
+* `ctlMixed` - both `pass` and `break` occur: the manual gives the combination no meaning
+  (`Spec.ctlOfList = none`), so there is nothing to refine. -/
+
+def isAttBlockExpr : Expr → Bool
+  | .attBlock .. => true
+  | _ => false
+
+/-- Both `pass` and `break` occur in the list. -/
+def ctlMixed (xs : List Expr) : Bool := xs.any Spec.isPassExpr && xs.any Spec.isBrkExpr
+
+/-- Something other than `pass` stands after the first `pass`. -/
+def actionAfterPass (xs : List Expr) : Bool :=
+  ((xs.dropWhile fun x => !Spec.isPassExpr x).drop 1).any fun x => !Spec.isPassExpr x
+
+/-- An attachment block stands after the first `break`. -/
+def attAfterBreak (xs : List Expr) : Bool :=
+  ((xs.dropWhile fun x => !Spec.isBrkExpr x).drop 1).any isAttBlockExpr
+
+/-- The placements of `pass` / `break` in one action list that the refinement theorem covers:
+everything the grammar accepts except the three classes above.  In words: no control action; or
+one or more `pass` at the end and no `break`; or `break` - any number of times, anywhere - with no
+`pass` and every attachment block of the list before the first `break`. -/
+def placedOK (xs : List Expr) : Bool := !ctlMixed xs && !actionAfterPass xs && !attAfterBreak xs
+
+/-- Every action list of the tree (at every nesting level, inside attachment blocks too) is
+`placedOK`. -/
+def ctlPlaced : Expr → Bool
+  | .block _ e => ctlPlaced e
+  | .neg _ e => ctlPlaced e
+  | .and _ l r => ctlPlaced l && ctlPlaced r
+  | .or _ l r => ctlPlaced l && ctlPlaced r
+  | .mtch _ c rhs =>
+    ctlPlaced c && ctlPlaced rhs &&
+      (match rhs with
+       | .block .. => true
+       | e => placedOK (Spec.andChain e))
+  | .attachment _ c => ctlPlaced c
+  | .attBlock _ b => ctlPlaced b
+  | _ => true
+
 theorem partIndex_ne_zero (k i : Nat) : Spec.partIndex k i ≠ 0 := by
   unfold Spec.partIndex
   split <;> omega
